@@ -50,12 +50,16 @@ def runScript (read : Read) (l : Lexer) (ops : List String) : List String :=
     | [] => acc.reverse
     | op :: rest =>
       if op == "S" then let l := l.start read; go rest l laEnd (fmtState l :: acc)
-      else if op == "A" then let l := l.advance read false; go rest l laEnd (fmtState l :: acc)
-      else if op == "K" then let l := l.advance read true; go rest l laEnd (fmtState l :: acc)
+      else if op == "A" then let l := if l.eof && !l.chunk.isEmpty then l else l.advance read false; go rest l laEnd (fmtState l :: acc)
+      else if op == "K" then let l := if l.eof && !l.chunk.isEmpty then l else l.advance read true; go rest l laEnd (fmtState l :: acc)
       else if op == "M" then let l := l.markEnd; go rest l laEnd (fmtState l :: acc)
       else if op == "F" then
         let (l, e) := l.finish laEnd
         go rest l e ((fmtState l ++ s!",{e}") :: acc)
+      else if op == "I" then let l := l.setInput; go rest l laEnd (fmtState l :: acc)
+      else if op == "C" then
+        let (l, c) := l.getColumn read
+        go rest l laEnd ((fmtState l ++ s!",{c}") :: acc)
       else if op.startsWith "R:" then
         match (op.splitOn ":").map natOf with
         | [_, b, r, c] => let l := l.reset ⟨b, ⟨r, c⟩⟩; go rest l laEnd (fmtState l :: acc)
@@ -154,6 +158,8 @@ def runCase (s : St) : String :=
           | none => some "no treeE"
         else st.fail
       let err := hasError r.root || hasError c.root
+      -- the error-recovery finding needs BOTH parses to be erroneous (an error in only one of them is never excused)
+      let errBoth := hasError r.root && hasError c.root
       let (shape, pos) := match st.fail with
         | none => if st.quirks > 0 then ("ok", s!"FAIL {st.quirkMsg}") else ("ok", "ok")
         | some m => if m.startsWith "shape" then (s!"FAIL {m}", "-") else ("ok", s!"FAIL {m}")
@@ -170,7 +176,7 @@ def runCase (s : St) : String :=
         else if st.fail.isNone && st.quirks == 0 then "-"
         else if !onB && s.hasE && effOk && stE.isNone then "char-splitting-range-boundary"
         else if st.fail.isNone then "empty-range-boundary"
-        else if err then "error-recovery"
+        else if errBoth then "error-recovery"
         else "other"
       s!"{s.id} setter={setter} reported={reported} concat={concatOk} shape={shape} pos={pos} cause={cause} accepted=1 err={if err then 1 else 0} nranges={n} neff={es.length} onb={if onB then 1 else 0} effok={if effOk then 1 else 0} nodes={st.nodes} leaves={st.leaves} gapleaves={st.gapLeaves} quirks={st.quirks} col={if col then 1 else 0} fit={if fit then 1 else 0} rc={if rc then "ok" else "bad"} sc={if sc then "ok" else "bad"}"
     | _, _ => s!"{s.id} setter={setter} reported={reported} concat={concatOk} shape=BADINPUT pos=BADINPUT cause=other accepted=1"
